@@ -53,7 +53,7 @@ claimed.update({
 claimed.update({
  "C08": dict(level="exploration", ref="§5 C08",
    text="Generated frame sequences (H.264+AAC / H.265; IDR/IRAP, P, SEI, in-band parameter sets; 1 byte to 70 KiB; DTS bases 0, 1e6 s, just below 2^31 and 2^32 ms; PTS-DTS in {0,+80,-40} ms; audio older than the first video tag) pushed through the real flv.Muxer goroutine, stream FLV cache and the real HTTP-FLV handler/flv.Writer to 1-2 viewers joining at tape-chosen frames, with close-while-writing; an independent FLV+AMF0 reader checks header and type flags, PreviousTagSize chaining, metadata / decoder configuration (built from the actual parameter sets) / AAC configuration before media, one length-prefixed NAL per video tag equal to the source, key flag, audio payload, rebased timestamps and composition offsets.",
-   note="Trusted: the FLV/AMF0/avcC/hvcC reader in harness/oracle (written from the Adobe FLV and ISO 14496-15 layouts). Frames enter at media.Stream.WriteFrame (the RTP demuxer in front is C06's subject); the input dimension is sampled, simulation adds join point, goroutine interleaving and close-while-writing. WebSocket-FLV: see DESIGN.md. The rtp-inband-params family applies the same strict header-order and metadata rules to streams whose SDP names no parameter sets. One audio frame in six begins with bytes that look like an ADTS sync word; before a run another stream with the other track layout may be watched."),
+   note="Trusted: the FLV/AMF0/avcC/hvcC reader in harness/oracle (written from the Adobe FLV and ISO 14496-15 layouts). Frames enter at media.Stream.WriteFrame (the RTP demuxer in front is C06's subject); the input dimension is sampled, simulation adds join point, goroutine interleaving and close-while-writing. WebSocket-FLV: see DESIGN.md. The rtp-inband-params family applies the same strict header-order and metadata rules to streams whose SDP names no parameter sets. One audio frame in six begins with bytes that look like an ADTS sync word; before a run another stream with the other track layout may be watched. In the in-band family one GOP in three ends with a header-only end-of-sequence unit in a packet of its own (byte-identical units are matched by position)."),
 })
 claimed.update({
  "C07": dict(level="fault_enumeration", ref="§5 C07",
@@ -61,7 +61,7 @@ claimed.update({
    note="Family camera-garbage runs the same faults with a pulled camera as the source (route -> PullClient handshake with a fake camera whose DESCRIBE answer carries the clean, sprop-free or hostile SDP; the pull connection must survive malformed frames and the path must be pullable afresh after a hostile SDP). Trusted: sim.Conn, the FLV/TS/m3u8 oracles. The interleaved framing itself stays intact (a corrupted length field cannot be resynchronised by any receiver). Offsets are sampled per run in the quick tier. One known finding (HLS stalls after an RTP timestamp discontinuity) is listed in known_findings.json. Fault kinds since the third session: RTP header extensions with lying lengths, zero-length interleaved frames, damaged well-formed SDPs, whole GOPs with one packet corrupted or truncated in place, truncation at structural boundaries; H.265 sources (relay and FLV judged, no HLS for H.265 in ipchub)."),
  "C10": dict(level="exploration", ref="§5 C10",
    text="35-60 s of H.264+AAC frames (frame interval 40 ms..1 s, key-frame interval 1..12 s around the 5 s fragment, audio gaps) through the real TS muxer goroutine, segment generator and playlist in memory and disk modes; playlist invariants after every frame (three consecutive complete segments, media sequence, target duration, token, URIs resolve), segments snapshotted when they appear and compared with what 1-3 slow readers get through the real GetTS handler while rollover happens, two playlist fetchers with different tokens through GetM3u8; every segment is demultiplexed by an independent TS reader (PAT/PMT/CRC, continuity, PES, Annex-B, ADTS) and must carry every source frame exactly once, in order, starting with AUD+SPS+PPS+IDR after the first segment.",
-   note="Trusted: the TS/ADTS/m3u8 oracles, sync.Pool made repeatable by GOMAXPROCS=1 and GC off during a run. One known finding (key-frame interval above twice the fragment length: segment cut on an audio frame) is listed in known_findings.json. A second family drives the segment generator directly with fragment lengths 0 and 1 s (fragments below 100 ms, dropped with sequence-number reuse), which the server configuration cannot produce. C09 (pure TS byte format) is not claimed; its reader nevertheless runs on every segment here. A listed segment has to resolve only while it is still listed (the window may move between the playlist and the fetch). Disk mode also injects a disk fault: from a tape-chosen media time on the next segment file cannot be created; what is served must stay a consistent playlist of intact segments."),
+   note="Trusted: the TS/ADTS/m3u8 oracles, sync.Pool made repeatable by GOMAXPROCS=1 and GC off during a run. One known finding (key-frame interval above twice the fragment length: segment cut on an audio frame) is listed in known_findings.json. A second family drives the segment generator directly with fragment lengths 0 and 1 s (fragments below 100 ms, dropped with sequence-number reuse), which the server configuration cannot produce. C09 (pure TS byte format) is not claimed; its reader nevertheless runs on every segment here. A listed segment has to resolve only while it is still listed (the window may move between the playlist and the fetch). Disk mode also injects a disk fault: from a tape-chosen media time on the next segment file cannot be created; what is served must stay a consistent playlist of intact segments. In the in-band family a 1-byte end-of-sequence unit follows one non-key frame in six."),
 })
 claimed.update({
  "C17": dict(level="exploration", ref="§5 C17",
